@@ -199,6 +199,80 @@ func execAPI(r *row, dir string, parallel bool) {
 	r.Log = parseLog(log)
 }
 
+// execCancel: every run is in flight (its command sleeps) when the runner is cancelled; an
+// interrupted task has failed, and the context's after hook and down still run for it.
+func execCancel(r *row, dir string) bool {
+	log := filepath.Join(dir, "log")
+	tr, _ := runner.NewTaskRunner(runner.WithContexts(buildContexts(*r, log)))
+	tr.Stdout, tr.Stderr = ioutil.Discard, ioutil.Discard
+	r.Rets = make([]string, len(r.Runs))
+	expectBodies := 0
+	for i := range r.Runs {
+		r.Runs[i].Fails = true // every run that gets as far as its command is interrupted there
+		if expectedRet(*r, i) == "err" {
+			up := true
+			for j, c := range r.Ctxs {
+				if c == r.Runs[i].Ctx && r.UpFails[j] {
+					up = false
+				}
+			}
+			if up {
+				expectBodies++
+			}
+		}
+	}
+	var wg sync.WaitGroup
+	for i := range r.Runs {
+		i := i
+		wg.Add(1)
+		go func() {
+			defer wg.Done()
+			t := buildTask(i+1, r.Runs[i], log)
+			t.Commands = []string{echo(fmt.Sprintf("body.%d", i+1), log) + "; sleep 20"}
+			err := tr.Run(t)
+			switch {
+			case err != nil:
+				r.Rets[i] = "err"
+			case t.Skipped:
+				r.Rets[i] = "skipped"
+			default:
+				r.Rets[i] = "ok"
+			}
+		}()
+	}
+	lim := time.Now().Add(15 * time.Second)
+	for time.Now().Before(lim) {
+		n := 0
+		for _, t := range parseLog(log) {
+			if t["k"] == "body" {
+				n++
+			}
+		}
+		if n >= expectBodies {
+			break
+		}
+		time.Sleep(5 * time.Millisecond)
+	}
+	cancelled := make(chan struct{})
+	go func() { tr.Cancel(); close(cancelled) }()
+	fin := make(chan struct{})
+	go func() { wg.Wait(); close(fin) }()
+	select {
+	case <-fin:
+	case <-time.After(20 * time.Second):
+		return false
+	}
+	select {
+	case <-cancelled:
+	case <-time.After(10 * time.Second):
+		return false
+	}
+	tr.Finish()
+	r.Seq, r.Finished = false, true
+	r.Log = parseLog(log)
+	return true
+}
+
 func execSched(r *row, dir string, chain bool) bool {
 	log := filepath.Join(dir, "log")
 	tr, _ := runner.NewTaskRunner(runner.WithContexts(buildContexts(*r, log)))
@@ -338,6 +412,11 @@ func Check(env *core.Env, rep *core.Report) *core.Result {
 		d := env.Sub("ctx")
 		switch i % 6 {
 		case 0:
+			if i%12 == 6 {
+				r.Mode = "api-cancel"
+				hung[i] = !execCancel(&r, d)
+				break
+			}
 			r.Mode = "api-sequential"
 			execAPI(&r, d, false)
 		case 1, 2:
